@@ -58,7 +58,7 @@ HERE = os.path.dirname(os.path.abspath(__file__))
 CRATE = os.path.join(HERE, "crate")
 SHIM = os.path.join(HERE, "shim", "frost_core_verif_shim.rs")
 KANI_FLAGS = ["-Z", "stubbing"]
-TIER_TIMEOUT = {"quick": 120, "thorough": 1800}
+TIER_TIMEOUT = {"quick": 600, "thorough": 2400}  # wall-clock safety nets only: generous, so a loaded machine does not turn a pass into "did not finish"
 TIMEOUT_OVERRIDE = None
 PLAYBACK_CONTROLS = False
 TARGET_DIR_ARGS = []
